@@ -26,6 +26,20 @@ pub fn generate(seed: u64, index: u64, thorough: bool) -> Scenario {
     let width = pick_width(&mut rng);
     let big = rng.chance(if thorough { 0.06 } else { 0.03 });
     let model = gen_model(&mut rng, kind, if big { 7 } else if thorough { 5 } else { 4 }, if big { 6 } else { 4 });
+    // a purely linear hand-written model (no nonlinear parameter at all; 1 in 150,
+    // hash-selected): the optimizer has nothing to do and reports NoParameters, which is an
+    // unsuccessful termination - Err, not a panic
+    let model = if mix(seed, "C12-no-parameters", index) % 150 == 0 {
+        ModelSpec {
+            kind: ModelKind::Hand,
+            funcs: vec![FuncSpec { family: Family::Const, params: vec![] }, FuncSpec { family: Family::Linear, params: vec![] }],
+            nparams: 0,
+            store_then_fail: false,
+        }
+    } else {
+        model
+    };
+    let kind = model.kind;
     let mp = model.m() + model.nparams;
     // N relative to M+P: -3..+3 around the boundary, or comfortably large
     let delta: i64 = match rng.below(11) {
@@ -249,6 +263,10 @@ fn run_once<T: Sc, F: Factory<T>>(
                 }
                 if !f.termination_successful {
                     rep.probe("failed_fits");
+                }
+                rep.probe(&format!("termination_{}", f.termination.split('(').next().unwrap_or("")));
+                if p == 0 {
+                    rep.probe("fits_of_models_without_nonlinear_parameters");
                 }
                 if f.ok {
                     rep.probe("statistics_ok");
